@@ -361,6 +361,16 @@ fn push_impl_t_bounds(
     for trait_fn in trait_fns {
         if let FnDeps::Generic { trait_bounds, .. } = &trait_fn.deps {
             for bound in trait_bounds {
+                // A relaxed bound (`?Sized`) is not a requirement, and not permitted on `Self`
+                if matches!(
+                    bound,
+                    syn::TypeParamBound::Trait(syn::TraitBound {
+                        modifier: syn::TraitBoundModifier::Maybe(_),
+                        ..
+                    })
+                ) {
+                    continue;
+                }
                 bound_punctuator.push(bound);
             }
         }
